@@ -353,8 +353,13 @@ func (ip *FileIP) WriteAuditLogToFile() {
 	auditInfoJSON, jsonErr := json.MarshalIndent(auditInfo, "", "    ")
 	CheckWithMsg(jsonErr, "Could not marshall JSON")
 	ip.createDirs("")
-	writeErr := ioutil.WriteFile(ip.AuditFilePath(), auditInfoJSON, 0644)
+	// Write to a temporary file and rename it into place, so that an interrupted
+	// write never leaves a truncated audit file next to an existing data file
+	tmpAuditPath := ip.AuditFilePath() + ".tmp"
+	writeErr := ioutil.WriteFile(tmpAuditPath, auditInfoJSON, 0644)
 	CheckWithMsg(writeErr, "Could not write audit file: "+ip.Path())
+	renameErr := os.Rename(tmpAuditPath, ip.AuditFilePath())
+	CheckWithMsg(renameErr, "Could not move audit file into place: "+ip.Path())
 }
 
 // AuditInfo returns the AuditInfo struct for the FileIP
